@@ -49,7 +49,7 @@ func init() {
 		Real:  []string{"Client.Send / SendRaw SM bookkeeping", "Router.route on <a/> and SendMissingStz", "stanza.UnAckQueue", "recv loop (answers to <r/>)"},
 		Stub:  []string{"TCP (simnet)", "XMPP server (scripted model counting stanzas like XEP-0198 says)", "clock (synctest)", "goroutine scheduling (token scheduler)", "sync.RWMutex (equivalent shim)"},
 		Run:   runC10,
-		Reach: []string{"c10.resumed_at_end", "c10.new_session_after_refused_resume", "c10.raw_sm_element_sent"},
+		Reach: []string{"c10.resumed_at_end", "c10.honest_server_after_resumption", "c10.new_session_after_refused_resume", "c10.raw_sm_element_sent"},
 	})
 }
 
@@ -533,7 +533,42 @@ func runC10(e *Engine, g G, o RunOpt) RunInfo {
 					if strings.Join(got, "\x00") != strings.Join(want, "\x00") {
 						e.Violate("C10", "held-stanzas-changed-by-resumption", "<resumed h='%d'/> repeats what was acknowledged before the loss: held before %s, after the resumption %s", h, shortStz(want), shortStz(got))
 					}
-					e.Probe("c10.resumed_at_end")
+					e.Probe("c10.resumed_at_end", "c10.honest_server_after_resumption")
+					// From here on the server counts honestly: it had handled h stanzas when the connection was
+					// lost, and it handles what it receives on the new connection. Every answer to an <r/> (and
+					// one unsolicited acknowledgement to begin with) carries that count. What the server has
+					// acknowledged that way is delivered: within a few rounds nothing may be held any more, and
+					// nothing that was held may have been dropped without reaching the server.
+					nconn := s.Srv.Conns[nc]
+					stanzasOn := func() []string {
+						var out []string
+						for _, r := range nconn.Elements() {
+							el := r.Item.Elem
+							if r.Phase >= 2 && (el.Local == "message" || el.Local == "presence" || el.Local == "iq") && el.Space != nsSM {
+								out = append(out, string(r.Item.Raw))
+							}
+						}
+						return out
+					}
+					for round := 0; round < 6 && len(e.Violations) == 0; round++ {
+						nconn.Send(fmt.Sprintf("<a xmlns='%s' h='%d'/>", nsSM, h+len(stanzasOn())))
+						e.Sleep(2 * time.Second)
+					}
+					left, _ := queue()
+					seen := map[string]bool{}
+					for _, raw := range stanzasOn() {
+						seen[raw] = true
+					}
+					for _, raw := range want {
+						if !seen[raw] {
+							e.Violate("C10", "unacked-stanza-never-sent-again-after-resumption", "held at the resumption (<resumed h='%d'/>): %s; the server has received %s on the new connection and acknowledged it, %s is still missing", h, shortStz(want), shortStz(stanzasOn()), shortStz([]string{raw}))
+							break
+						}
+					}
+					if len(left) != 0 && len(e.Violations) == 0 {
+						e.Violate("C10", "held-for-ever-after-resumption", "the server acknowledged everything it received after <resumed h='%d'/> (%d stanzas, six rounds); still held: %s", h, len(stanzasOn()), shortStz(left))
+					}
+					e.Probe("c10.honest_server_after_resumption")
 				}
 			}
 			return
